@@ -88,9 +88,15 @@ MUTANTS = [
     ("strip-all-two-segment-attrs", "C13", [(D + "parser/attributes/mod.rs", "let segments = &attr.path().segments;", "let segments = &attr.path().segments;\n        if segments.len() == 2 && segments[0].ident == \"rustfmt\" {\n            return Some(Self::Features);\n        }")], ["C13"], "a foreign two-segment attribute is treated as sylvia's and stripped"),
     ("hashmap-in-generator", "C13", [(D + "utils.rs", "use convert_case::Casing;", "use convert_case::Casing;\n#[allow(unused_imports)]\nuse std::collections::HashMap;")], ["C13"], "a HashMap enters the macro crate"),
     ("generic-unused-leaks", "C15", [(D + "parser/check_generics.rs", "        let unused = self\n            .generics\n            .iter()\n            .filter(|gen| !self.used.contains(*gen))\n            .copied()\n            .collect();\n\n        (self.used, unused)", "        let unused: Vec<_> = self\n            .generics\n            .iter()\n            .filter(|gen| !self.used.contains(*gen))\n            .copied()\n            .collect();\n        let mut used = self.used;\n        if used.len() == 1 && unused.len() == 1 { used.extend(unused.iter().copied()); return (used, vec![]); }\n\n        (used, unused)")], ["C15"], "with exactly one used and one unused parameter the unused one leaks into the type"),
-    ("query-accessor-exec-in-responses", "C16", [(D + "types/interfaces.rs", "let type_name = msg_ty.as_accessor_name();\n                quote! {\n                    <#contract as #module ::sv::InterfaceMessagesApi> :: #type_name :: response_schemas_impl()", "let type_name = msg_ty.as_accessor_name();\n                let _ = type_name;\n                let type_name = MsgType::Query.as_accessor_name();\n                quote! {\n                    <#contract as #module ::sv::InterfaceMessagesApi> :: #type_name :: response_schemas_impl()")], [], "behaviour preserving (msg_ty is always Query here) - sanity: must stay silent"),
+    ("query-accessor-exec-in-responses", "C16", [(D + "types/interfaces.rs", "let type_name = msg_ty.as_accessor_name();\n                quote! {\n                    < <#contract as #module ::sv::InterfaceMessagesApi> :: #type_name as", "let type_name = msg_ty.as_accessor_name();\n                let _ = type_name;\n                let type_name = MsgType::Query.as_accessor_name();\n                quote! {\n                    < <#contract as #module ::sv::InterfaceMessagesApi> :: #type_name as")], [], "behaviour preserving (msg_ty is always Query here) - sanity: must stay silent"),
     ("msg-attr-kind-filter-dropped", "C17", [(D + "contract/communication/struct_msg.rs", ".filter(|attr| attr.msg_type == msg_ty)", ".filter(|attr| attr.msg_type == msg_ty || attr.msg_type == MsgType::Exec)")], ["C17"], "exec msg_attr also lands on instantiate/migrate structs"),
     ("two-instantiate-accepted", "C18", [(D + "contract/communication/struct_msg.rs", "} else if variants.variants().count() > 1 {", "} else if variants.variants().count() > 2 {")], ["C18"], "two instantiate handlers no longer rejected"),
+    ("reintroduce-D15", "C02", [(D + "contract/communication/struct_msg.rs", "let Self { #(#fields_names: #dispatch_args,)* } = self;", "let Self { #(#fields_names,)* } = self;"), (D + "contract/communication/struct_msg.rs", "contract.#function_name(Into::into(ctx), #(#dispatch_args,)*)", "contract.#function_name(Into::into(ctx), #(#fields_names,)*)")], ["C02"], "D15 returns: struct dispatch destructures over its own parameters (argument named contract / ctx)"),
+    ("reintroduce-D16", "C10", [(D + "contract/communication/instantiate_builder.rs", "sv_code_id", "code_id", 0)], ["C10"], "D16 returns: builder parameter code_id next to a handler argument code_id"),
+    ("reintroduce-D17", "C02", [(D + "contract/communication/enum_msg.rs", "                    match self {", "                    use #enum_name::*;\n\n                    match self {")], ["C02"], "D17 returns: variants glob-imported into dispatch (handler named into)"),
+    ("reintroduce-D19", "C10", [(D + "contract/communication/executor.rs", "#sylvia ::types::ExecutorBuilder::contract(&self).to_owned(),", "self.contract().to_owned(),")], ["C10"], "D19 returns: self.contract() resolves to an exec handler named contract"),
+    ("reintroduce-D21", "C19", [(D + "contract/mt.rs", "SvBankT", "BankT", 0)], ["C19"], "D21 returns: multitest helper parameter BankT"),
+    ("reintroduce-D22", "C19", [(D + "interface/communication/enum_msg.rs", "SvContractT", "ContractT", 0), (D + "types/associated_types.rs", "SvContractT", "ContractT", 0), (D + "interface/mt.rs", "SvContractT", "ContractT", 0)], ["C19"], "D22 returns: interface dispatch helper parameter ContractT"),
     ("reintroduce-D1", "C06", [(D + "parser/attributes/override_entry_point.rs", '"query" => MsgType::Query,', '"query" => MsgType::Instantiate,')], ["C04", "C06"], "D1 returns"),
     ("reintroduce-D2", "C19", [(D + "contract/communication/reply.rs", "let mut resp = #sylvia ::cw_std::Response::new()", "let mut resp = sylvia::cw_std::Response::new()")], ["C19"], "D2 returns"),
     ("reintroduce-D6", "C11", [("sylvia/src/into_response.rs", "            #[cfg(feature = \"stargate\")]\n            #[allow(deprecated)]\n            CosmosMsg::Stargate { type_url, value } => CosmosMsg::Stargate { type_url, value },\n", "")], ["C11"], "D6 returns"),
@@ -118,7 +124,11 @@ HARMLESS = [
 
 
 def apply_edits(edits):
-    for rel, old, new in edits:
+    for e in edits:
+        if len(e) == 4:
+            edit_file(e[0], e[1], e[2], count=e[3])      # count 0 = every occurrence
+            continue
+        rel, old, new = e
         if old is None:
             # crate-wide rename emit_ep_name -> ep_ident
             for root, _, files in os.walk(os.path.join(REPO, rel)):
